@@ -155,6 +155,11 @@ def _paths(ctx, P, body, memo, depth=0):
                             extra += ("pop_front=" + f[2],)
                     if f[0] == "truth" and any(c.endswith("::is_full") for c in og.calls_in(f[1])):
                         extra += ("is_full=%s" % f[2],)
+                    elif f[0] == "truth":
+                        from .rulekit import rel_of_term
+                        for op_, l_, r_ in rel_of_term(f[1], f[2]):
+                            if "f:blocks" in og.show(l_) and "len" in og.show(l_) and og.show(r_).endswith("f:size"):
+                                extra += ("is_full=%s" % (op_ == "Gt"),) if op_ in ("Gt", "Le") else ()
                 dfs(s, acc2, lab2 + extra, onpath | {bb})
     # loops with effects are rejected up front (effect would not be a constant vector)
     order = body.rpo()
@@ -173,6 +178,10 @@ def _paths(ctx, P, body, memo, depth=0):
         res.setdefault(key, l)
     memo[body.id] = [k[:3] + (k[3],) for k in res]
     return memo[body.id]
+
+
+def desc_labels(labels):
+    return ", ".join(labels) or "no condition"
 
 
 def rule_TH(ctx, tier):
@@ -265,6 +274,12 @@ def rule_TH(ctx, tier):
                 continue
             if ("tx_in_block.remove=Some" in labels and "pop_back=None" in labels) or "pop_front=None" in labels:
                 rr.ok("%s [%s]: infeasible — queue and per-block map hold the same blocks (rule TX)" % (name, lab), nontrivial=False)
+                continue
+            if name == "update" and dF > 0 and "is_full=True" not in labels:
+                rr.fail("update:evicts-when-not-over-size", "`TxIndex::update` drops the oldest block on a path where the queue is not known to be over its size (%s): after a disconnection the window never refills — it stays short by the depth of every reorg, so recent blocks fall out of the look-up early" % desc_labels(labels), where=P.bodies[m].span)
+                continue
+            if name == "update" and dF == 0 and dL > 0 and "is_full=True" in labels:
+                rr.fail("update:keeps-when-over-size", "`TxIndex::update` keeps every block on a path where the queue is over its size", where=P.bodies[m].span)
                 continue
             dg = aT * dT + aL * dL - dF
             desc = "%s [%s]: Δtip=%+d Δlen=%+d Δheight(front)=%+d" % (name, lab, dT, dL, dF)
